@@ -5,7 +5,7 @@
    the current_line stack: the "frame") and, where the current line is not the last line (after a child
    line context has returned to its header line), of the shape `GS`; effect lemmas for the primitives; an
    induction over the syntax tree for the statement-list loop, generic in the kind of the enclosing block
-   (begin/end, repeat/until, try/finally, finally/end), in the frame and in the parent of the enclosing
+   (begin/end, repeat/until, try/finally, try/except), in the frame and in the parent of the enclosing
    child line context.  The bodies of `if`/`while` are child lines: `child_run` crosses from the frame of
    the header line to the frame of its child lines and back. *)
 From PasfmtVerif Require Import Model.Fragment Model.DirectiveTree Proofs.DirectiveTreeProofs Proofs.ParserKernelProofs Proofs.ParserGrammarProofs
@@ -15,7 +15,7 @@ Local Open Scope nat_scope.
 Definition plain (t : RawTokenType) : Prop :=
   match t with
   | RTT_Identifier | RTT_Op OK_Semicolon | RTT_Op OK_Assign | RTT_Op OK_Dot | RTT_Keyword KK_Begin | RTT_Keyword KK_End
-  | RTT_Keyword KK_Repeat | RTT_Keyword KK_Until | RTT_Keyword KK_Try | RTT_Keyword KK_Finally
+  | RTT_Keyword KK_Repeat | RTT_Keyword KK_Until | RTT_Keyword KK_Try | RTT_Keyword KK_Finally | RTT_Keyword KK_Except
   | RTT_Keyword KK_If | RTT_Keyword KK_Then | RTT_Keyword KK_Else | RTT_Keyword KK_While | RTT_Keyword KK_Do | RTT_Eof => True
   | _ => False
   end.
@@ -352,25 +352,29 @@ Proof.
   destruct t as [o| | | | | | | | | |]; try reflexivity. destruct o; try reflexivity. exfalso. apply Hne. reflexivity.
 Qed.
 
-(* the context-ending test, on the two context shapes of the fragment *)
-Definition cSt : pctx := ctx (CT_Statement SK_Normal) false P_semicolon (L 0).
-(* the four kinds of statement blocks of the fragment: they differ only in the terminating keyword *)
-Inductive blk := KBegin | KRepeat | KTry | KFinally.
+(* the kinds of statement blocks of the fragment: they differ in the terminating keyword and in the kind of
+   the statement contexts inside (`except` blocks: SK_Except) *)
+Inductive blk := KBegin | KRepeat | KTry | KFinally | KTryE | KExcept.
 Definition cBlk (b : blk) : pctx :=
   match b with
   | KBegin => ctx (CT_StatementBlock BK_Begin) true P_end (L 1)
   | KRepeat => ctx (CT_StatementBlock BK_Repeat) true P_until (L 1)
-  | KTry => ctx (CT_StatementBlock BK_Try) true P_except_finally (L 1)
+  | KTry | KTryE => ctx (CT_StatementBlock BK_Try) true P_except_finally (L 1)
   | KFinally => ctx (CT_StatementBlock BK_Finally) true P_else_end (L 1)
+  | KExcept => ctx (CT_StatementBlock BK_Except) true P_else_end (L 1)
   end.
+Definition sk_of (b : blk) : skind := match b with KExcept => SK_Except | _ => SK_Normal end.
+(* the statement context of the statements of a block *)
+Definition cStk (b : blk) : pctx := ctx (CT_Statement (sk_of b)) false P_semicolon (L 0).
+Definition slc (b : blk) : call := C_stmt_list (CT_Statement (sk_of b)) false P_semicolon.
 Definition tTerm (b : blk) : RawTokenType :=
-  match b with KBegin | KFinally => tEnd | KRepeat => tUntil | KTry => tFinally end.
+  match b with KBegin | KFinally | KExcept => tEnd | KRepeat => tUntil | KTry => tFinally | KTryE => tExcept end.
 Definition is_term (b : blk) (t : RawTokenType) : bool :=
   match t with
-  | RTT_Keyword KK_End => match b with KBegin | KFinally => true | _ => false end
+  | RTT_Keyword KK_End => match b with KBegin | KFinally | KExcept => true | _ => false end
   | RTT_Keyword KK_Until => match b with KRepeat => true | _ => false end
-  | RTT_Keyword KK_Finally => match b with KTry => true | _ => false end
-  | RTT_Keyword KK_Else => match b with KFinally => true | _ => false end
+  | RTT_Keyword (KK_Finally | KK_Except) => match b with KTry | KTryE => true | _ => false end
+  | RTT_Keyword KK_Else => match b with KFinally | KExcept => true | _ => false end
   | _ => false
   end.
 Lemma is_term_term b : is_term b (tTerm b) = true. Proof. destruct b; reflexivity. Qed.
@@ -417,10 +421,10 @@ Proof. intros E. cbn [run]. rewrite E. destruct c; reflexivity. Qed.
 
 (* ending contexts on the shapes of the fragment *)
 Lemma ending_St_SB s k L c M mc last C lv a t :
-  ST s k L c M mc last ((cSt, false) :: (cSB, false) :: C) lv a -> nth_error T k = Some t ->
+  ST s k L c M mc last (((cStk bk), false) :: (cSB, false) :: C) lv a -> nth_error T k = Some t ->
   ending_ctx pass s = match t with RTT_Op OK_Semicolon => Some 1 | _ => if is_term bk t then Some 2 else None end.
 Proof.
-  intros H Ht. unfold ending_ctx. rewrite (ST_ctx _ _ _ _ _ _ _ _ _ _ H). cbn [ending_go cSt ctx c_pred c_opaque eval_pred].
+  intros H Ht. unfold ending_ctx. rewrite (ST_ctx _ _ _ _ _ _ _ _ _ _ H). cbn [ending_go cStk ctx c_pred c_opaque eval_pred].
   rewrite (blk_pred_eval bk _ _ _ _ _ _ _ _ _ _ _ H Ht), cBlk_opaque.
   rewrite (ST_cur_tt _ _ _ _ _ _ _ _ _ _ _ H Ht). pose proof (plain_nth _ _ Ht) as P.
   destruct t as [o| |k0|k0| | | | | | |]; try contradiction; try reflexivity.
@@ -428,7 +432,7 @@ Proof.
   all: try (destruct k0; try contradiction; cbn [o_semicolon]; destruct (is_term bk _); reflexivity).
 Qed.
 Lemma ending_St_ended s k L c M mc last r lv a :
-  ST s k L c M mc last ((cSt, true) :: r) lv a -> ending_ctx pass s = Some 1.
+  ST s k L c M mc last (((cStk bk), true) :: r) lv a -> ending_ctx pass s = Some 1.
 Proof. intros H. unfold ending_ctx. rewrite (ST_ctx _ _ _ _ _ _ _ _ _ _ H). reflexivity. Qed.
 Lemma is_ending_SB s k L c M mc last C lv a t :
   ST s k L c M mc last ((cSB, false) :: C) lv a -> nth_error T k = Some t -> is_ending pass s = is_term bk t.
@@ -456,16 +460,16 @@ Qed.
 Lemma last_ctx_ST s k L c M mc last x fl r lv a : ST s k L c M mc last ((x, fl) :: r) lv a -> last_ctx pass s = Some x.
 Proof. intros H. unfold last_ctx. rewrite (ST_ctx _ _ _ _ _ _ _ _ _ _ H). reflexivity. Qed.
 Lemma prelude_continue s k L c M mc last C lv a t :
-  ST s k L c M mc last ((cSt, false) :: (cSB, false) :: C) lv a -> nth_error T k = Some t ->
+  ST s k L c M mc last (((cStk bk), false) :: (cSB, false) :: C) lv a -> nth_error T k = Some t ->
   t <> tSemi -> is_term bk t = false -> statement_prelude pass s = (s, true).
 Proof.
   intros H Ht N1 N2. unfold statement_prelude. rewrite (last_ctx_ST _ _ _ _ _ _ _ _ _ _ _ _ H), (ending_St_SB _ _ _ _ _ _ _ _ _ _ _ H Ht), N2.
   pose proof (plain_nth _ _ Ht) as P.
-  destruct t as [o| |k0|k0| | | | | | |]; try contradiction; try (destruct (at_start pass s); reflexivity).
-  destruct o; try contradiction; try (destruct (at_start pass s); reflexivity).
+  destruct t as [o| |k0|k0| | | | | | |]; try contradiction; try (destruct (at_start pass s), bk; reflexivity).
+  destruct o; try contradiction; try (destruct (at_start pass s), bk; reflexivity).
 Qed.
 Lemma prelude_semicolon s k L c M mc last C lv a :
-  ST s k L c M mc last ((cSt, false) :: (cSB, false) :: C) lv a -> nth_error T k = Some tSemi ->
+  ST s k L c M mc last (((cStk bk), false) :: (cSB, false) :: C) lv a -> nth_error T k = Some tSemi ->
   statement_prelude pass s = (update_statuses pass 1 s, false).
 Proof.
   intros H Ht. unfold statement_prelude. rewrite (last_ctx_ST _ _ _ _ _ _ _ _ _ _ _ _ H), (ending_St_SB _ _ _ _ _ _ _ _ _ _ _ H Ht). reflexivity.
@@ -474,9 +478,9 @@ Qed.
 (* parse_structures on `Identifier ;` inside a statement context: the identifier is consumed, the
    statement context is marked as ended in front of the `;` *)
 Lemma structures_simple f s k L M mc last C lv a :
-  ST s k L [] M mc last ((cSt, false) :: (cSB, false) :: C) lv a ->
+  ST s k L [] M mc last (((cStk bk), false) :: (cSB, false) :: C) lv a ->
   nth_error T k = Some tI -> nth_error T (S k) = Some tSemi -> 3 <= f ->
-  ST (RUN f C_structures s) (S k) L [k] M mc last ((cSt, true) :: (cSB, false) :: C) lv a.
+  ST (RUN f C_structures s) (S k) L [k] M mc last (((cStk bk), true) :: (cSB, false) :: C) lv a.
 Proof.
   intros H Hk Hk1 Hf. destruct f as [|[|[|f]]]; try lia.
   assert (Hkn : k < n) by (apply nth_error_Some; congruence).
@@ -524,14 +528,14 @@ Lemma iter_simple f s k L M mc last C lv a t' :
   ST s k L [] M mc last ((cSB, false) :: C) lv a -> first_parent C = par ->
   nth_error T k = Some tI -> nth_error T (S k) = Some tSemi -> nth_error T (S (S k)) = Some t' -> t' <> tSemi ->
   4 <= f ->
-  ST (take_separators_on_last_line pass (CL_Level 0%Z) (finish_logical_line pass (RUN f (C_with_ctx cSt A_structures) s)))
+  ST (take_separators_on_last_line pass (CL_Level 0%Z) (finish_logical_line pass (RUN f (C_with_ctx (cStk bk) A_structures) s)))
      (S (S k)) (L ++ [[k; S k]]) [] (M ++ [mkLM par (lvl (1 + plain_sum C)) LLT_Unknown])
      (mkLM None (lvl (1 + plain_sum C)) LLT_Unknown) (length L) ((cSB, false) :: C) lv a.
 Proof.
   intros H HC Hk Hk1 Hk2 Hne Hf. destruct f as [|f]; [lia|].
-  rewrite (with_ctx_structures f cSt s (ST_err _ _ _ _ _ _ _ _ _ _ H) eq_refl).
+  rewrite (with_ctx_structures f (cStk bk) s (ST_err _ _ _ _ _ _ _ _ _ _ H) eq_refl).
   pose proof (finish_empty_ST _ _ _ _ _ _ _ _ _ H) as H0.
-  pose proof (push_ctx_ST cSt _ _ _ _ _ _ _ _ _ _ H0) as H1.
+  pose proof (push_ctx_ST (cStk bk) _ _ _ _ _ _ _ _ _ _ H0) as H1.
   pose proof (structures_simple f _ _ _ _ _ _ _ _ _ H1 Hk Hk1 ltac:(lia)) as H2.
   pose proof (pop_ctx_ST _ _ _ _ _ _ _ _ _ _ _ H2) as H3.
   pose proof (finish_ST _ _ _ _ _ _ _ _ _ _ H3 ltac:(discriminate)) as H4.
@@ -545,11 +549,11 @@ Qed.
 
 (* ---------------- `Identifier := Identifier ;` *)
 Lemma structures_assign f s k Ls M mc last C lv a :
-  ST s k Ls [] M mc last ((cSt, false) :: (cSB, false) :: C) lv a -> lm_type mc = LLT_Unknown ->
+  ST s k Ls [] M mc last (((cStk bk), false) :: (cSB, false) :: C) lv a -> lm_type mc = LLT_Unknown ->
   nth_error T k = Some tI -> nth_error T (S k) = Some tAssign -> nth_error T (S (S k)) = Some tI ->
   nth_error T (S (S (S k))) = Some tSemi -> 5 <= f ->
   ST (RUN f C_structures s) (S (S (S k))) Ls [k; S k; S (S k)] M (mkLM (lm_parent mc) (lm_level mc) LLT_Assignment) last
-     ((cSt, true) :: (cSB, false) :: C) lv a.
+     (((cStk bk), true) :: (cSB, false) :: C) lv a.
 Proof.
   intros H Hty Hk Hk1 Hk2 Hk3 Hf. destruct f as [|[|[|[|[|f]]]]]; try lia.
   assert (Hkn : k < n) by (apply nth_error_Some; congruence).
@@ -597,14 +601,14 @@ Lemma iter_assign f s k Ls M mc last C lv a t' :
   nth_error T k = Some tI -> nth_error T (S k) = Some tAssign -> nth_error T (S (S k)) = Some tI ->
   nth_error T (S (S (S k))) = Some tSemi -> nth_error T (S (S (S (S k)))) = Some t' -> t' <> tSemi ->
   6 <= f ->
-  ST (take_separators_on_last_line pass (CL_Level 0%Z) (finish_logical_line pass (RUN f (C_with_ctx cSt A_structures) s)))
+  ST (take_separators_on_last_line pass (CL_Level 0%Z) (finish_logical_line pass (RUN f (C_with_ctx (cStk bk) A_structures) s)))
      (S (S (S (S k)))) (Ls ++ [[k; S k; S (S k); S (S (S k))]]) [] (M ++ [mkLM par (lvl (1 + plain_sum C)) LLT_Assignment])
      (mkLM None (lvl (1 + plain_sum C)) LLT_Unknown) (length Ls) ((cSB, false) :: C) lv a.
 Proof.
   intros H HC Hk Hk1 Hk2 Hk3 Hk4 Hne Hf. destruct f as [|f]; [lia|].
-  rewrite (with_ctx_structures f cSt s (ST_err _ _ _ _ _ _ _ _ _ _ H) eq_refl).
+  rewrite (with_ctx_structures f (cStk bk) s (ST_err _ _ _ _ _ _ _ _ _ _ H) eq_refl).
   pose proof (finish_empty_ST _ _ _ _ _ _ _ _ _ H) as H0.
-  pose proof (push_ctx_ST cSt _ _ _ _ _ _ _ _ _ _ H0) as H1.
+  pose proof (push_ctx_ST (cStk bk) _ _ _ _ _ _ _ _ _ _ H0) as H1.
   pose proof (structures_assign f _ _ _ _ _ _ _ _ _ H1 eq_refl Hk Hk1 Hk2 Hk3 ltac:(lia)) as H2.
   pose proof (pop_ctx_ST _ _ _ _ _ _ _ _ _ _ _ H2) as H3.
   pose proof (finish_ST _ _ _ _ _ _ _ _ _ _ H3 ltac:(discriminate)) as H4.
@@ -618,14 +622,13 @@ Qed.
 (* ---------------- nested blocks *)
 Definition meta_of (l : lline) : lmeta := mkLM (ll_parent l) (ll_level l) (ll_type l).
 Definition need (ss : stmts) : nat := 10 + 10 * length (render ss).
-Definition stmt_list_call : call := C_stmt_list (CT_Statement SK_Normal) false P_semicolon.
 (* the tokens of `l` sit in T from position k on *)
 Definition toks_at (k : nat) (l : list RawTokenType) : Prop := forall j t, nth_error l j = Some t -> nth_error T (k + j) = Some t.
 (* what the statement-list loop does on ss inside the contexts (block bk :: C), from a line start at k *)
 Definition Post (ss : stmts) (C : list (pctx * bool)) (f : nat) (s : pstate) (k : nat) (Ls : list (list nat)) (M : list lmeta)
            (lv : levels) (a : list nat) (li : nat) : Prop :=
   exists mc' last' fl, lm_type mc' = LLT_Unknown /\
-    ST (RUN f stmt_list_call s) (k + length (render ss))
+    ST (RUN f (slc bk) s) (k + length (render ss))
        (Ls ++ map ll_toks (pexpected par (1 + plain_sum C) k li ss)) []
        (M ++ map meta_of (pexpected par (1 + plain_sum C) k li ss)) mc' last' ((cSB, fl) :: C) lv a.
 Definition IHfor (ss : stmts) (C : list (pctx * bool)) : Prop :=
@@ -663,14 +666,14 @@ Lemma loop_tail r C : IHfor r C ->
   forall f s3 k2 L2 M2 mc2 last2 lv a li, need r <= f -> li = length L2 -> lm_type mc2 = LLT_Unknown ->
   ST s3 k2 L2 [] M2 mc2 last2 ((cSB, false) :: C) lv a -> toks_at k2 (render r ++ [tTerm bk]) ->
   exists mc' last' fl, lm_type mc' = LLT_Unknown /\
-    ST (if is_ending pass s3 || match cur_tt pass s3 with None => true | Some _ => false end then s3 else RUN f stmt_list_call s3)
+    ST (if is_ending pass s3 || match cur_tt pass s3 with None => true | Some _ => false end then s3 else RUN f (slc bk) s3)
        (k2 + length (render r)) (L2 ++ map ll_toks (pexpected par (1 + plain_sum C) k2 li r)) []
        (M2 ++ map meta_of (pexpected par (1 + plain_sum C) k2 li r)) mc' last' ((cSB, fl) :: C) lv a.
 Proof.
   intros IHr f s3 k2 L2 M2 mc2 last2 lv a li Hf Hli Hty H Ht.
   destruct (head_tok r) as (t' & H0 & N1 & E1 & E2).
   pose proof (toks_at_0 _ _ _ Ht H0) as Hk. rewrite (is_ending_SB _ _ _ _ _ _ _ _ _ _ _ H Hk).
-  destruct r as [|r'|r'|b' r'|b' r'|b' c' r'|c' r'|c1' c2' r'|c' r'] eqn:Er.
+  destruct r as [|r'|r'|b' r'|b' r'|b' c' r'|b' c' r'|c' r'|c1' c2' r'|c' r'] eqn:Er.
   - rewrite (E1 eq_refl), is_term_term. cbn [orb render length pexpected map]. rewrite !app_nil_r, Nat.add_0_r. eauto.
   - destruct (E2 ltac:(discriminate)) as [F1 F2]. rewrite F1.
     assert (X : t' = tI) by (cbn in H0; congruence). subst t'.
@@ -688,6 +691,9 @@ Proof.
     assert (X : t' = tTry) by (cbn in H0; congruence). subst t'.
     rewrite (ST_cur_tt _ _ _ _ _ _ _ _ _ _ _ H Hk). cbn [tTry orb]. exact (IHr _ _ _ _ _ _ _ _ _ _ Hf Hli H Ht).
   - destruct (E2 ltac:(discriminate)) as [F1 F2]. rewrite F1.
+    assert (X : t' = tTry) by (cbn in H0; congruence). subst t'.
+    rewrite (ST_cur_tt _ _ _ _ _ _ _ _ _ _ _ H Hk). cbn [tTry orb]. exact (IHr _ _ _ _ _ _ _ _ _ _ Hf Hli H Ht).
+  - destruct (E2 ltac:(discriminate)) as [F1 F2]. rewrite F1.
     assert (X : t' = tIf) by (cbn in H0; congruence). subst t'.
     rewrite (ST_cur_tt _ _ _ _ _ _ _ _ _ _ _ H Hk). cbn [tIf orb]. exact (IHr _ _ _ _ _ _ _ _ _ _ Hf Hli H Ht).
   - destruct (E2 ltac:(discriminate)) as [F1 F2]. rewrite F1.
@@ -699,18 +705,18 @@ Proof.
 Qed.
 
 (* level bookkeeping under a statement context on top of a block *)
-Lemma first_parent_St_blk f1 f2 C : first_parent ((cSt, f1) :: (cSB, f2) :: C) = first_parent C.
+Lemma first_parent_St_blk f1 f2 C : first_parent (((cStk bk), f1) :: (cSB, f2) :: C) = first_parent C.
 Proof. destruct bk; reflexivity. Qed.
-Lemma plain_sum_St_blk f1 f2 C : plain_sum ((cSt, f1) :: (cSB, f2) :: C) = (0 + (1 + plain_sum C))%Z.
+Lemma plain_sum_St_blk f1 f2 C : plain_sum (((cStk bk), f1) :: (cSB, f2) :: C) = (0 + (1 + plain_sum C))%Z.
 Proof. destruct bk; reflexivity. Qed.
 
 (* `until Identifier` : parse_statement inside the BlockClause context *)
 Definition cBC : pctx := ctx CT_BlockClause false P_never (ParserGrammar.L 0).
 Lemma ending_BC s k Ls c M mc last C lv a t :
-  ST s k Ls c M mc last ((cBC, false) :: (cSt, false) :: (cSB, false) :: C) lv a -> nth_error T k = Some t ->
+  ST s k Ls c M mc last ((cBC, false) :: ((cStk bk), false) :: (cSB, false) :: C) lv a -> nth_error T k = Some t ->
   ending_ctx pass s = match t with RTT_Op OK_Semicolon => Some 2 | _ => if is_term bk t then Some 3 else None end.
 Proof.
-  intros H Ht. unfold ending_ctx. rewrite (ST_ctx _ _ _ _ _ _ _ _ _ _ H). cbn [ending_go cBC cSt ctx c_pred c_opaque eval_pred].
+  intros H Ht. unfold ending_ctx. rewrite (ST_ctx _ _ _ _ _ _ _ _ _ _ H). cbn [ending_go cBC cStk ctx c_pred c_opaque eval_pred].
   rewrite (blk_pred_eval bk _ _ _ _ _ _ _ _ _ _ _ H Ht), cBlk_opaque.
   rewrite (ST_cur_tt _ _ _ _ _ _ _ _ _ _ _ H Ht). pose proof (plain_nth _ _ Ht) as P.
   destruct t as [o| |k0|k0| | | | | | |]; try contradiction; try reflexivity.
@@ -718,9 +724,9 @@ Proof.
   all: try (destruct k0; try contradiction; cbn [o_semicolon]; destruct (is_term bk _); reflexivity).
 Qed.
 Lemma statement_in_clause f s k Ls c M mc last C lv a :
-  ST s k Ls c M mc last ((cBC, false) :: (cSt, false) :: (cSB, false) :: C) lv a -> c <> [] ->
+  ST s k Ls c M mc last ((cBC, false) :: ((cStk bk), false) :: (cSB, false) :: C) lv a -> c <> [] ->
   nth_error T k = Some tI -> nth_error T (S k) = Some tSemi -> 2 <= f ->
-  ST (RUN f C_statement s) (S k) Ls (c ++ [k]) M mc last ((cBC, true) :: (cSt, true) :: (cSB, false) :: C) lv a.
+  ST (RUN f C_statement s) (S k) Ls (c ++ [k]) M mc last ((cBC, true) :: ((cStk bk), true) :: (cSB, false) :: C) lv a.
 Proof.
   intros H Hc Hk Hk1 Hf. destruct f as [|[|f]]; try lia.
   assert (Hkn : k < n) by (apply nth_error_Some; congruence).
@@ -743,7 +749,7 @@ Qed.
 (* the end of an iteration of the statement-list loop: the statement context has just ended in front of
    the `;` that follows the last finished line `ln`; the `;` is appended to that line *)
 Lemma iter_close sX e' Ly ln Mx mcX C lv a t' :
-  ST sX (S e') (Ly ++ [ln]) [] Mx mcX (length Ly) ((cSt, true) :: (cSB, false) :: C) lv a -> ln <> [] ->
+  ST sX (S e') (Ly ++ [ln]) [] Mx mcX (length Ly) (((cStk bk), true) :: (cSB, false) :: C) lv a -> ln <> [] ->
   nth_error T (S e') = Some tSemi -> nth_error T (S (S e')) = Some t' -> t' <> tSemi ->
   ST (take_separators_on_last_line pass (CL_Level 0%Z) (finish_logical_line pass (pop_ctx pass sX)))
      (S (S e')) (Ly ++ [ln ++ [S e']]) [] Mx (mkLM (lm_parent mcX) (lm_level mcX) LLT_Unknown) (length Ly) ((cSB, false) :: C) lv a.
@@ -758,11 +764,11 @@ Qed.
 (* a closing keyword (`end`) followed by `;` inside a statement context: the keyword makes a line of its
    own, parse_structures returns in front of the `;` with the statement context marked as ended *)
 Lemma close_keyword f s e Lx Mx mcb lastb C lv a tk :
-  ST s e Lx [] Mx mcb lastb ((cSt, false) :: (cSB, false) :: C) lv a -> lm_type mcb = LLT_Unknown ->
+  ST s e Lx [] Mx mcb lastb (((cStk bk), false) :: (cSB, false) :: C) lv a -> lm_type mcb = LLT_Unknown ->
   first_parent C = par -> nth_error T e = Some tk -> nth_error T (S e) = Some tSemi -> 1 <= f ->
   ST (RUN f C_structures (finish_logical_line pass (take_until pass (no_more_separators pass) (next_token pass s))))
      (S e) (Lx ++ [[e]]) [] (Mx ++ [mkLM par (lvl (1 + plain_sum C)) LLT_Unknown])
-     (mkLM None (lvl (1 + plain_sum C)) LLT_Unknown) (length Lx) ((cSt, true) :: (cSB, false) :: C) lv a.
+     (mkLM None (lvl (1 + plain_sum C)) LLT_Unknown) (length Lx) (((cStk bk), true) :: (cSB, false) :: C) lv a.
 Proof.
   intros H Ty HC He Hs Hf. destruct f as [|f]; [lia|].
   assert (Hen : e < n) by (apply nth_error_Some; congruence).
@@ -782,18 +788,18 @@ Qed.
 (* entering a nested block after its opening keyword: the keyword makes a line at the statement level,
    the block context is pushed *)
 Lemma open_block f s k Ls M mc last C lv a bk' :
-  ST s k Ls [] M mc last ((cSt, false) :: (cSB, false) :: C) lv a -> lm_type mc = LLT_Unknown ->
+  ST s k Ls [] M mc last (((cStk bk), false) :: (cSB, false) :: C) lv a -> lm_type mc = LLT_Unknown ->
   first_parent C = par -> k < n ->
   let s1 := push_ctx pass (cBlk bk') (finish_logical_line pass (next_token pass s)) in
-  RUN (S (S f)) (C_stmt_block (cBlk bk') SK_Normal) (next_token pass s) = pop_ctx pass (RUN f stmt_list_call s1)
+  RUN (S (S f)) (C_stmt_block (cBlk bk') (sk_of bk')) (next_token pass s) = pop_ctx pass (RUN f (slc bk') s1)
   /\ ST s1 (S k) (Ls ++ [[k]]) [] (M ++ [mkLM par (lvl (1 + plain_sum C)) LLT_Unknown])
         (mkLM None (lvl (1 + plain_sum C)) LLT_Unknown) (length Ls)
-        ((cBlk bk', false) :: (cSt, false) :: (cSB, false) :: C) lv a.
+        ((cBlk bk', false) :: ((cStk bk), false) :: (cSB, false) :: C) lv a.
 Proof.
   intros H Ty HC Hkn s1.
   pose proof (next_token_ST _ _ _ _ _ _ _ _ _ _ H Hkn) as H2. cbn [app] in H2.
   split.
-  - rewrite (run_S _ (C_stmt_block (cBlk bk') SK_Normal) _ (ST_err _ _ _ _ _ _ _ _ _ _ H2)). unfold arm_stmt_block.
+  - rewrite (run_S _ (C_stmt_block (cBlk bk') (sk_of bk')) _ (ST_err _ _ _ _ _ _ _ _ _ _ H2)). unfold arm_stmt_block.
     rewrite (with_ctx_stmt_list _ (cBlk bk') _ _ (ST_err _ _ _ _ _ _ _ _ _ _ H2) (cBlk_level bk')). reflexivity.
   - pose proof (finish_ST _ _ _ _ _ _ _ _ _ _ H2 ltac:(discriminate)) as H3.
     rewrite first_parent_St_blk, plain_sum_St_blk, HC, Ty in H3.
@@ -805,11 +811,9 @@ End Blk.
 (* ================================================================== *)
 (* the nested constructs; the outer block kind bk is arbitrary *)
 Notation RUN := (run pass []).
-Ltac outer_open H Hk :=
-  rewrite (with_ctx_structures _ cSt _ (ST_err _ _ _ _ _ _ _ _ _ _ H) eq_refl).
 
 Lemma iter_block bk b f s k Ls M mc last C lv a t' :
-  IHfor KBegin b ((cSt, false) :: (cBlk bk, false) :: C) ->
+  IHfor KBegin b (((cStk bk), false) :: (cBlk bk, false) :: C) ->
   ST s k Ls [] M mc last ((cBlk bk, false) :: C) lv a -> first_parent C = par ->
   nth_error T k = Some tBegin -> toks_at (S k) (render b ++ [tEnd]) ->
   nth_error T (S (S k + length (render b))) = Some tSemi ->
@@ -817,7 +821,7 @@ Lemma iter_block bk b f s k Ls M mc last C lv a t' :
   8 + need b <= f ->
   let e := S k + length (render b) in
   exists mc3, lm_type mc3 = LLT_Unknown /\
-  ST (take_separators_on_last_line pass (CL_Level 0%Z) (finish_logical_line pass (RUN f (C_with_ctx cSt A_structures) s)))
+  ST (take_separators_on_last_line pass (CL_Level 0%Z) (finish_logical_line pass (RUN f (C_with_ctx (cStk bk) A_structures) s)))
      (S (S e)) (Ls ++ [k] :: map ll_toks (pexpected par (1 + plain_sum C + 1) (S k) (S (length Ls)) b) ++ [[e; S e]]) []
      (M ++ mkLM par (lvl (1 + plain_sum C)) LLT_Unknown :: map meta_of (pexpected par (1 + plain_sum C + 1) (S k) (S (length Ls)) b)
         ++ [mkLM par (lvl (1 + plain_sum C)) LLT_Unknown])
@@ -826,15 +830,15 @@ Proof.
   intros IHb H HC Hk Hb Hse Hse1 Hne Hf e.
   assert (Hkn : k < n) by (apply nth_error_Some; congruence).
   destruct f as [|[|[|[|f]]]]; try lia.
-  rewrite (with_ctx_structures _ cSt s (ST_err _ _ _ _ _ _ _ _ _ _ H) eq_refl).
+  rewrite (with_ctx_structures _ (cStk bk) s (ST_err _ _ _ _ _ _ _ _ _ _ H) eq_refl).
   pose proof (finish_empty_ST _ _ _ _ _ _ _ _ _ H) as H0.
-  pose proof (push_ctx_ST cSt _ _ _ _ _ _ _ _ _ _ H0) as H1.
+  pose proof (push_ctx_ST (cStk bk) _ _ _ _ _ _ _ _ _ _ H0) as H1.
   rewrite (run_S _ C_structures _ (ST_err _ _ _ _ _ _ _ _ _ _ H1)).
   unfold arm_structures. rewrite (ST_cur_tt _ _ _ _ _ _ _ _ _ _ _ H1 Hk). cbn [tBegin].
   rewrite (ending_St_SB bk _ _ _ _ _ _ _ _ _ _ _ H1 Hk). cbn [tBegin is_term sarm_of].
   cbv delta [sa_begin stmt_block] beta.
   change (ctx (CT_StatementBlock BK_Begin) true P_end (ParserGrammar.L 1)) with (cBlk KBegin).
-  destruct (open_block bk f _ _ _ _ _ _ _ _ _ KBegin H1 eq_refl HC Hkn) as [Eq H4]. rewrite Eq. clear Eq.
+  destruct (open_block bk f _ _ _ _ _ _ _ _ _ KBegin H1 eq_refl HC Hkn) as [Eq H4]. cbn [sk_of] in Eq. rewrite Eq. clear Eq.
   pose proof (fun Hli => IHb f _ _ _ _ _ _ _ _ (S (length Ls)) ltac:(lia) Hli H4 Hb) as IHb'.
   destruct (IHb' ltac:(rewrite app_length; cbn [length]; lia)) as (mcb & lastb & flb & Tyb & H5).
   rewrite plain_sum_St_blk in H5. replace (1 + (0 + (1 + plain_sum C)))%Z with (1 + plain_sum C + 1)%Z in H5 by lia.
@@ -858,7 +862,7 @@ Proof.
 Qed.
 
 Lemma iter_repeat bk b f s k Ls M mc last C lv a t' :
-  IHfor KRepeat b ((cSt, false) :: (cBlk bk, false) :: C) ->
+  IHfor KRepeat b (((cStk bk), false) :: (cBlk bk, false) :: C) ->
   ST s k Ls [] M mc last ((cBlk bk, false) :: C) lv a -> first_parent C = par ->
   nth_error T k = Some tRepeat -> toks_at (S k) (render b ++ [tUntil]) ->
   nth_error T (S (S k + length (render b))) = Some tI ->
@@ -867,7 +871,7 @@ Lemma iter_repeat bk b f s k Ls M mc last C lv a t' :
   8 + need b <= f ->
   let e := S k + length (render b) in
   exists mc3 last3, lm_type mc3 = LLT_Unknown /\
-  ST (take_separators_on_last_line pass (CL_Level 0%Z) (finish_logical_line pass (RUN f (C_with_ctx cSt A_structures) s)))
+  ST (take_separators_on_last_line pass (CL_Level 0%Z) (finish_logical_line pass (RUN f (C_with_ctx (cStk bk) A_structures) s)))
      (S (S (S e))) (Ls ++ [k] :: map ll_toks (pexpected par (1 + plain_sum C + 1) (S k) (S (length Ls)) b) ++ [[e; S e; S (S e)]]) []
      (M ++ mkLM par (lvl (1 + plain_sum C)) LLT_Unknown :: map meta_of (pexpected par (1 + plain_sum C + 1) (S k) (S (length Ls)) b)
         ++ [mkLM par (lvl (1 + plain_sum C)) LLT_Unknown])
@@ -876,15 +880,15 @@ Proof.
   intros IHb H HC Hk Hb Hi Hse Hse1 Hne Hf e.
   assert (Hkn : k < n) by (apply nth_error_Some; congruence).
   destruct f as [|[|[|[|f]]]]; try lia.
-  rewrite (with_ctx_structures _ cSt s (ST_err _ _ _ _ _ _ _ _ _ _ H) eq_refl).
+  rewrite (with_ctx_structures _ (cStk bk) s (ST_err _ _ _ _ _ _ _ _ _ _ H) eq_refl).
   pose proof (finish_empty_ST _ _ _ _ _ _ _ _ _ H) as H0.
-  pose proof (push_ctx_ST cSt _ _ _ _ _ _ _ _ _ _ H0) as H1.
+  pose proof (push_ctx_ST (cStk bk) _ _ _ _ _ _ _ _ _ _ H0) as H1.
   rewrite (run_S _ C_structures _ (ST_err _ _ _ _ _ _ _ _ _ _ H1)).
   unfold arm_structures. rewrite (ST_cur_tt _ _ _ _ _ _ _ _ _ _ _ H1 Hk). cbn [tRepeat].
   rewrite (ending_St_SB bk _ _ _ _ _ _ _ _ _ _ _ H1 Hk). cbn [tRepeat is_term sarm_of].
   cbv delta [sa_repeat stmt_block] beta.
   change (ctx (CT_StatementBlock BK_Repeat) true P_until (ParserGrammar.L 1)) with (cBlk KRepeat).
-  destruct (open_block bk f _ _ _ _ _ _ _ _ _ KRepeat H1 eq_refl HC Hkn) as [Eq H4]. rewrite Eq. clear Eq.
+  destruct (open_block bk f _ _ _ _ _ _ _ _ _ KRepeat H1 eq_refl HC Hkn) as [Eq H4]. cbn [sk_of] in Eq. rewrite Eq. clear Eq.
   pose proof (fun Hli => IHb f _ _ _ _ _ _ _ _ (S (length Ls)) ltac:(lia) Hli H4 Hb) as IHb'.
   destruct (IHb' ltac:(rewrite app_length; cbn [length]; lia)) as (mcb & lastb & flb & Tyb & H5).
   rewrite plain_sum_St_blk in H5. replace (1 + (0 + (1 + plain_sum C)))%Z with (1 + plain_sum C + 1)%Z in H5 by lia.
@@ -903,14 +907,14 @@ Proof.
   rewrite (take_until_ending _ _ (ST_err _ _ _ _ _ _ _ _ _ _ H10)).
   2: { rewrite (ST_cur_tt _ _ _ _ _ _ _ _ _ _ _ H10 Hse). discriminate. }
   2: { unfold no_more_separators. rewrite (ST_cur_tt _ _ _ _ _ _ _ _ _ _ _ H10 Hse). reflexivity. }
-  2: { unfold is_ending. rewrite (ending_St_ended _ _ _ _ _ _ _ _ _ _ H10). reflexivity. }
+  2: { unfold is_ending. rewrite (ending_St_ended bk _ _ _ _ _ _ _ _ _ _ H10). reflexivity. }
   pose proof (finish_ST _ _ _ _ _ _ _ _ _ _ H10 ltac:(discriminate)) as H11.
   rewrite (first_parent_St_blk bk), (plain_sum_St_blk bk), HC, Tyb in H11.
   replace (clamp_u16 (0 + (1 + plain_sum C))) with (lvl (1 + plain_sum C)) in H11 by (unfold lvl; f_equal; lia).
   unfold s_loop.
   rewrite (run_S _ C_structures _ (ST_err _ _ _ _ _ _ _ _ _ _ H11)).
   unfold arm_structures. rewrite (ST_cur_tt _ _ _ _ _ _ _ _ _ _ _ H11 Hse). cbn [tSemi].
-  rewrite (ending_St_ended _ _ _ _ _ _ _ _ _ _ H11).
+  rewrite (ending_St_ended bk _ _ _ _ _ _ _ _ _ _ H11).
   pose proof (update_statuses_ST 1 _ _ _ _ _ _ _ _ _ _ H11) as H12. cbn [mark_ended] in H12.
   pose proof (iter_close bk _ _ _ _ _ _ _ _ _ t' H12 ltac:(discriminate) Hse Hse1 Hne) as H13.
   eexists _, _. split; [|eapply ST_lists; [exact H13| |]].
@@ -920,7 +924,7 @@ Proof.
 Qed.
 
 Lemma iter_try bk b c f s k Ls M mc last C lv a t' :
-  IHfor KTry b ((cSt, false) :: (cBlk bk, false) :: C) -> IHfor KFinally c ((cSt, false) :: (cBlk bk, false) :: C) ->
+  IHfor KTry b (((cStk bk), false) :: (cBlk bk, false) :: C) -> IHfor KFinally c (((cStk bk), false) :: (cBlk bk, false) :: C) ->
   ST s k Ls [] M mc last ((cBlk bk, false) :: C) lv a -> first_parent C = par ->
   nth_error T k = Some tTry -> toks_at (S k) (render b ++ [tFinally]) ->
   toks_at (S (S k + length (render b))) (render c ++ [tEnd]) ->
@@ -930,7 +934,7 @@ Lemma iter_try bk b c f s k Ls M mc last C lv a t' :
   let m := S k + length (render b) in
   let e := S m + length (render c) in
   exists mc3 last3, lm_type mc3 = LLT_Unknown /\
-  ST (take_separators_on_last_line pass (CL_Level 0%Z) (finish_logical_line pass (RUN f (C_with_ctx cSt A_structures) s)))
+  ST (take_separators_on_last_line pass (CL_Level 0%Z) (finish_logical_line pass (RUN f (C_with_ctx (cStk bk) A_structures) s)))
      (S (S e))
      (Ls ++ [k] :: map ll_toks (pexpected par (1 + plain_sum C + 1) (S k) (S (length Ls)) b) ++ [m] :: map ll_toks (pexpected par (1 + plain_sum C + 1) (S m) (S (length Ls) + length (pexpected par (1 + plain_sum C + 1) (S k) (S (length Ls)) b) + 1) c) ++ [[e; S e]]) []
      (M ++ mkLM par (lvl (1 + plain_sum C)) LLT_Unknown :: map meta_of (pexpected par (1 + plain_sum C + 1) (S k) (S (length Ls)) b)
@@ -941,15 +945,15 @@ Proof.
   intros IHb IHc H HC Hk Hb Hcn Hse Hse1 Hne Hf m e.
   assert (Hkn : k < n) by (apply nth_error_Some; congruence).
   destruct f as [|[|[|[|f]]]]; try lia.
-  rewrite (with_ctx_structures _ cSt s (ST_err _ _ _ _ _ _ _ _ _ _ H) eq_refl).
+  rewrite (with_ctx_structures _ (cStk bk) s (ST_err _ _ _ _ _ _ _ _ _ _ H) eq_refl).
   pose proof (finish_empty_ST _ _ _ _ _ _ _ _ _ H) as H0.
-  pose proof (push_ctx_ST cSt _ _ _ _ _ _ _ _ _ _ H0) as H1.
+  pose proof (push_ctx_ST (cStk bk) _ _ _ _ _ _ _ _ _ _ H0) as H1.
   rewrite (run_S _ C_structures _ (ST_err _ _ _ _ _ _ _ _ _ _ H1)).
   unfold arm_structures. rewrite (ST_cur_tt _ _ _ _ _ _ _ _ _ _ _ H1 Hk). cbn [tTry].
   rewrite (ending_St_SB bk _ _ _ _ _ _ _ _ _ _ _ H1 Hk). cbn [tTry is_term sarm_of].
   cbv delta [sa_try stmt_block] beta.
   change (ctx (CT_StatementBlock BK_Try) true P_except_finally (ParserGrammar.L 1)) with (cBlk KTry).
-  destruct (open_block bk f _ _ _ _ _ _ _ _ _ KTry H1 eq_refl HC Hkn) as [Eq H4]. rewrite Eq. clear Eq.
+  destruct (open_block bk f _ _ _ _ _ _ _ _ _ KTry H1 eq_refl HC Hkn) as [Eq H4]. cbn [sk_of] in Eq. rewrite Eq. clear Eq.
   pose proof (fun Hli => IHb f _ _ _ _ _ _ _ _ (S (length Ls)) ltac:(lia) Hli H4 Hb) as IHb'.
   destruct (IHb' ltac:(rewrite app_length; cbn [length]; lia)) as (mcb & lastb & flb & Tyb & H5).
   rewrite plain_sum_St_blk in H5. replace (1 + (0 + (1 + plain_sum C)))%Z with (1 + plain_sum C + 1)%Z in H5 by lia.
@@ -962,7 +966,67 @@ Proof.
   change (ctx (CT_StatementBlock BK_Finally) true P_else_end (ParserGrammar.L 1)) with (cBlk KFinally).
   (* `finally` and its block *)
   destruct (open_block bk f _ _ _ _ _ _ _ _ _ KFinally H6 Tyb HC Hmn) as [Eq2 H4'].
-  fold m in Hcn. rewrite Eq2. clear Eq2.
+  fold m in Hcn. cbn [sk_of] in Eq2. rewrite Eq2. clear Eq2.
+  pose proof (fun Hli => IHc f _ _ _ _ _ _ _ _ (S (length Ls) + length (pexpected par (1 + plain_sum C + 1) (S k) (S (length Ls)) b) + 1) ltac:(lia) Hli H4' Hcn) as IHc'.
+  destruct (IHc' ltac:(rewrite !app_length, map_length; cbn [length]; lia)) as (mcc & lastc & flc & Tyc & H5').
+  rewrite plain_sum_St_blk in H5'. replace (1 + (0 + (1 + plain_sum C)))%Z with (1 + plain_sum C + 1)%Z in H5' by lia.
+  pose proof (pop_ctx_ST _ _ _ _ _ _ _ _ _ _ _ H5') as H6'. fold e in H6'.
+  match type of H6' with ST ?x _ _ _ _ _ _ _ _ _ => set (sC := x) in * end.
+  assert (He : nth_error T e = Some tEnd).
+  { specialize (Hcn (length (render c)) tEnd). rewrite nth_error_app2, Nat.sub_diag in Hcn by lia. exact (Hcn eq_refl). }
+  rewrite (ST_cur_tt _ _ _ _ _ _ _ _ _ _ _ H6' He). cbn [tEnd o_kw_else]. unfold s_loop.
+  pose proof (close_keyword bk (S (S f)) _ _ _ _ _ _ _ _ _ tEnd H6' Tyc HC He Hse ltac:(lia)) as H9.
+  pose proof (iter_close bk _ _ _ _ _ _ _ _ _ t' H9 ltac:(discriminate) Hse Hse1 Hne) as H12.
+  eexists _, _. split; [|eapply ST_lists; [exact H12| |]].
+  - reflexivity.
+  - cbn [app]. repeat (progress (cbn [app]; rewrite <- ?app_assoc)). reflexivity.
+  - repeat (progress (cbn [app]; rewrite <- ?app_assoc)). reflexivity.
+Qed.
+
+Lemma iter_tryexcept bk b c f s k Ls M mc last C lv a t' :
+  IHfor KTryE b (((cStk bk), false) :: (cBlk bk, false) :: C) -> IHfor KExcept c (((cStk bk), false) :: (cBlk bk, false) :: C) ->
+  ST s k Ls [] M mc last ((cBlk bk, false) :: C) lv a -> first_parent C = par ->
+  nth_error T k = Some tTry -> toks_at (S k) (render b ++ [tExcept]) ->
+  toks_at (S (S k + length (render b))) (render c ++ [tEnd]) ->
+  nth_error T (S (S (S k + length (render b)) + length (render c))) = Some tSemi ->
+  nth_error T (S (S (S (S k + length (render b)) + length (render c)))) = Some t' -> t' <> tSemi ->
+  8 + need b + need c <= f ->
+  let m := S k + length (render b) in
+  let e := S m + length (render c) in
+  exists mc3 last3, lm_type mc3 = LLT_Unknown /\
+  ST (take_separators_on_last_line pass (CL_Level 0%Z) (finish_logical_line pass (RUN f (C_with_ctx (cStk bk) A_structures) s)))
+     (S (S e))
+     (Ls ++ [k] :: map ll_toks (pexpected par (1 + plain_sum C + 1) (S k) (S (length Ls)) b) ++ [m] :: map ll_toks (pexpected par (1 + plain_sum C + 1) (S m) (S (length Ls) + length (pexpected par (1 + plain_sum C + 1) (S k) (S (length Ls)) b) + 1) c) ++ [[e; S e]]) []
+     (M ++ mkLM par (lvl (1 + plain_sum C)) LLT_Unknown :: map meta_of (pexpected par (1 + plain_sum C + 1) (S k) (S (length Ls)) b)
+        ++ mkLM par (lvl (1 + plain_sum C)) LLT_Unknown :: map meta_of (pexpected par (1 + plain_sum C + 1) (S m) (S (length Ls) + length (pexpected par (1 + plain_sum C + 1) (S k) (S (length Ls)) b) + 1) c)
+        ++ [mkLM par (lvl (1 + plain_sum C)) LLT_Unknown])
+     mc3 last3 ((cBlk bk, false) :: C) lv a.
+Proof.
+  intros IHb IHc H HC Hk Hb Hcn Hse Hse1 Hne Hf m e.
+  assert (Hkn : k < n) by (apply nth_error_Some; congruence).
+  destruct f as [|[|[|[|f]]]]; try lia.
+  rewrite (with_ctx_structures _ (cStk bk) s (ST_err _ _ _ _ _ _ _ _ _ _ H) eq_refl).
+  pose proof (finish_empty_ST _ _ _ _ _ _ _ _ _ H) as H0.
+  pose proof (push_ctx_ST (cStk bk) _ _ _ _ _ _ _ _ _ _ H0) as H1.
+  rewrite (run_S _ C_structures _ (ST_err _ _ _ _ _ _ _ _ _ _ H1)).
+  unfold arm_structures. rewrite (ST_cur_tt _ _ _ _ _ _ _ _ _ _ _ H1 Hk). cbn [tTry].
+  rewrite (ending_St_SB bk _ _ _ _ _ _ _ _ _ _ _ H1 Hk). cbn [tTry is_term sarm_of].
+  cbv delta [sa_try stmt_block] beta.
+  change (ctx (CT_StatementBlock BK_Try) true P_except_finally (ParserGrammar.L 1)) with (cBlk KTryE).
+  destruct (open_block bk f _ _ _ _ _ _ _ _ _ KTryE H1 eq_refl HC Hkn) as [Eq H4]. cbn [sk_of] in Eq. rewrite Eq. clear Eq.
+  pose proof (fun Hli => IHb f _ _ _ _ _ _ _ _ (S (length Ls)) ltac:(lia) Hli H4 Hb) as IHb'.
+  destruct (IHb' ltac:(rewrite app_length; cbn [length]; lia)) as (mcb & lastb & flb & Tyb & H5).
+  rewrite plain_sum_St_blk in H5. replace (1 + (0 + (1 + plain_sum C)))%Z with (1 + plain_sum C + 1)%Z in H5 by lia.
+  pose proof (pop_ctx_ST _ _ _ _ _ _ _ _ _ _ _ H5) as H6. fold m in H6.
+  match type of H6 with ST ?x _ _ _ _ _ _ _ _ _ => set (sB := x) in * end.
+  assert (Hm : nth_error T m = Some tExcept).
+  { specialize (Hb (length (render b)) tExcept). rewrite nth_error_app2, Nat.sub_diag in Hb by lia. exact (Hb eq_refl). }
+  assert (Hmn : m < n) by (apply nth_error_Some; congruence).
+  cbv zeta. rewrite (ST_cur_tt _ _ _ _ _ _ _ _ _ _ _ H6 Hm). cbn [tExcept].
+  change (ctx (CT_StatementBlock BK_Except) true P_else_end (ParserGrammar.L 1)) with (cBlk KExcept).
+  (* `finally` and its block *)
+  destruct (open_block bk f _ _ _ _ _ _ _ _ _ KExcept H6 Tyb HC Hmn) as [Eq2 H4'].
+  fold m in Hcn. cbn [sk_of] in Eq2. rewrite Eq2. clear Eq2.
   pose proof (fun Hli => IHc f _ _ _ _ _ _ _ _ (S (length Ls) + length (pexpected par (1 + plain_sum C + 1) (S k) (S (length Ls)) b) + 1) ltac:(lia) Hli H4' Hcn) as IHc'.
   destruct (IHc' ltac:(rewrite !app_length, map_length; cbn [length]; lia)) as (mcc & lastc & flc & Tyc & H5').
   rewrite plain_sum_St_blk in H5'. replace (1 + (0 + (1 + plain_sum C)))%Z with (1 + plain_sum C + 1)%Z in H5' by lia.
@@ -1060,14 +1124,14 @@ Qed.
 Lemma open_block_G f s k Ls M mc last Y lv a bk' :
   ST s k Ls [] M mc last Y lv a -> k < n ->
   let s1 := push_ctx pass (cBlk bk') (finish_logical_line pass (next_token pass s)) in
-  RUN (S (S f)) (C_stmt_block (cBlk bk') SK_Normal) (next_token pass s) = pop_ctx pass (RUN f stmt_list_call s1)
+  RUN (S (S f)) (C_stmt_block (cBlk bk') (sk_of bk')) (next_token pass s) = pop_ctx pass (RUN f (slc bk') s1)
   /\ ST s1 (S k) (Ls ++ [[k]]) [] (M ++ [mkLM (first_parent Y) (clamp_u16 (plain_sum Y)) (lm_type mc)])
         (mkLM None (clamp_u16 (plain_sum Y)) LLT_Unknown) (length Ls) ((cBlk bk', false) :: Y) lv a.
 Proof.
   intros H Hkn s1.
   pose proof (next_token_ST _ _ _ _ _ _ _ _ _ _ H Hkn) as H2. cbn [app] in H2.
   split.
-  - rewrite (run_S _ (C_stmt_block (cBlk bk') SK_Normal) _ (ST_err _ _ _ _ _ _ _ _ _ _ H2)). unfold arm_stmt_block.
+  - rewrite (run_S _ (C_stmt_block (cBlk bk') (sk_of bk')) _ (ST_err _ _ _ _ _ _ _ _ _ _ H2)). unfold arm_stmt_block.
     rewrite (with_ctx_stmt_list _ (cBlk bk') _ _ (ST_err _ _ _ _ _ _ _ _ _ _ H2) (cBlk_level bk')). reflexivity.
   - pose proof (finish_ST _ _ _ _ _ _ _ _ _ _ H2 ltac:(discriminate)) as H3.
     exact (push_ctx_ST (cBlk bk') _ _ _ _ _ _ _ _ _ _ H3).
@@ -1110,8 +1174,8 @@ Qed.
 Definition cCh (pe : bool) (p : nat * nat) : pctx :=
   ctx (CT_Statement SK_Normal) false (if pe then P_else else P_never) (CL_Parent p 1%N).
 Definition tFol (el : bool) : RawTokenType := if el then tElse else tSemi.
-Definition Xc bk pe p (C : list (pctx * bool)) := (cCh pe p, false) :: (cSt, false) :: (cBlk bk, false) :: C.
-Definition Xe bk pe p (C : list (pctx * bool)) (el : bool) := (cCh pe p, true) :: (cSt, negb el) :: (cBlk bk, false) :: C.
+Definition Xc bk pe p (C : list (pctx * bool)) := (cCh pe p, false) :: ((cStk bk), false) :: (cBlk bk, false) :: C.
+Definition Xe bk pe p (C : list (pctx * bool)) (el : bool) := (cCh pe p, true) :: ((cStk bk), negb el) :: (cBlk bk, false) :: C.
 Lemma first_parent_Xc bk pe p C : first_parent (Xc bk pe p C) = Some p. Proof. reflexivity. Qed.
 Lemma plain_sum_Xc bk pe p C : plain_sum (Xc bk pe p C) = 1%Z. Proof. reflexivity. Qed.
 Lemma first_parent_Xe bk pe p C el : first_parent (Xe bk pe p C el) = Some p. Proof. reflexivity. Qed.
@@ -1122,7 +1186,7 @@ Lemma ending_Ch bk pe p s k L c M mc last C lv a t :
   ending_ctx pass s = if pe && o_kw_else (Some t) then Some 1
                       else match t with RTT_Op OK_Semicolon => Some 2 | _ => if is_term bk t then Some 3 else None end.
 Proof.
-  intros H Ht. unfold ending_ctx. rewrite (ST_ctx _ _ _ _ _ _ _ _ _ _ H). unfold Xc. cbn [ending_go cCh cSt ctx c_pred c_opaque].
+  intros H Ht. unfold ending_ctx. rewrite (ST_ctx _ _ _ _ _ _ _ _ _ _ H). unfold Xc. cbn [ending_go cCh cStk ctx c_pred c_opaque].
   rewrite (blk_pred_eval bk _ _ _ _ _ _ _ _ _ _ _ H Ht), cBlk_opaque.
   pose proof (ST_cur_tt _ _ _ _ _ _ _ _ _ _ _ H Ht) as Ct. pose proof (plain_nth _ _ Ht) as P.
   destruct pe; cbn [eval_pred andb]; rewrite ?Ct.
@@ -1210,7 +1274,7 @@ Proof.
   unfold arm_structures. rewrite (ST_cur_tt _ _ _ _ _ _ _ _ _ _ _ H Hk), E0. cbn [tBegin sarm_of].
   cbv delta [sa_begin stmt_block] beta.
   change (ctx (CT_StatementBlock BK_Begin) true P_end (ParserGrammar.L 1)) with (cBlk KBegin).
-  destruct (open_block_G (S f) _ _ _ _ _ _ _ _ _ KBegin H Hkn) as [Eq H4]. rewrite Eq. clear Eq.
+  destruct (open_block_G (S f) _ _ _ _ _ _ _ _ _ KBegin H Hkn) as [Eq H4]. cbn [sk_of] in Eq. rewrite Eq. clear Eq.
   rewrite first_parent_Xc, plain_sum_Xc, Hty, <- Hp in H4.
   pose proof (fun Hli => IHb (S f) _ _ _ _ _ _ _ _ (S (length L)) ltac:(lia) Hli H4 Hb) as IHb'.
   destruct (IHb' ltac:(rewrite app_length; cbn [length]; lia)) as (mcb & lastb & flb & Tyb & H5).
@@ -1482,12 +1546,12 @@ Lemma body_last_ne k c : body_last k c <> []. Proof. destruct c; discriminate. Q
 (* ---------------- parse_block with a parent: the child lines of one body *)
 Lemma child_run stk bk pe el p c f s k LL h MM last0 C lv a li :
   (forall b, c = TBlock b -> IHfor (h :: stk) (Some p) KBegin b (Xc bk pe p C)) ->
-  GS s k LL (h :: stk) MM last0 ((cSt, false) :: (cBlk bk, false) :: C) lv a -> li = length LL ->
+  GS s k LL (h :: stk) MM last0 (((cStk bk), false) :: (cBlk bk, false) :: C) lv a -> li = length LL ->
   (el = true -> pe = true) -> toks_at k (render_body c ++ [tFol el]) -> 10 + 10 * length (render_body c) <= f ->
   GS (RUN f (C_block (cCh pe p)) s) (k + length (render_body c))
      (LL ++ map ll_toks (body_init (Some p) k li c) ++ [body_last k c; []]) (h :: stk)
      (MM ++ map meta_of (body_init (Some p) k li c) ++ [mkLM (Some p) (lvl 1) (body_ty c); mkLM None (lvl 1) LLT_Unknown])
-     (li + length (body_init (Some p) k li c)) ((cSt, negb el) :: (cBlk bk, false) :: C) lv a.
+     (li + length (body_init (Some p) k li c)) (((cStk bk), negb el) :: (cBlk bk, false) :: C) lv a.
 Proof.
   intros IH H -> Hel Ht Hf. destruct f as [|[|f]]; try lia.
   rewrite (run_S _ (C_block _) _ (GS_err _ _ _ _ _ _ _ _ _ H)). unfold arm_block.
@@ -1506,7 +1570,7 @@ Qed.
 (* ... and the end of the statement that owns the child lines: the `;` goes to the last child line, the
    header line is finished, the statement context (already ended) is left *)
 Lemma child_tail stk bk lvl_ f s e LL h M last C lv a t' :
-  GS s e LL (h :: stk) M last ((cSt, true) :: (cBlk bk, false) :: C) lv a ->
+  GS s e LL (h :: stk) M last (((cStk bk), true) :: (cBlk bk, false) :: C) lv a ->
   nth_error T e = Some tSemi -> nth_error T (S e) = Some t' -> t' <> tSemi -> t' <> RTT_Eof ->
   nth last LL [] <> [] -> nth h LL [] <> [] ->
   ST stk (take_separators_on_last_line pass (CL_Level 0%Z) (finish_logical_line pass (pop_ctx pass
@@ -1530,7 +1594,7 @@ Qed.
 
 Lemma child_final stk bk pe lvl_ p c f f1 s k LL h MM last0 C lv a t' li :
   (forall b, c = TBlock b -> IHfor (h :: stk) (Some p) KBegin b (Xc bk pe p C)) ->
-  GS s k LL (h :: stk) MM last0 ((cSt, false) :: (cBlk bk, false) :: C) lv a -> li = length LL ->
+  GS s k LL (h :: stk) MM last0 (((cStk bk), false) :: (cBlk bk, false) :: C) lv a -> li = length LL ->
   nth h LL [] <> [] -> h < length LL ->
   toks_at k (render_body c ++ [tSemi]) -> nth_error T (S (k + length (render_body c))) = Some t' -> t' <> tSemi -> t' <> RTT_Eof ->
   10 + 10 * length (render_body c) <= f ->
@@ -1572,7 +1636,7 @@ Lemma iter_if stk par bk c f s k Ls M mc last C lv a t' :
   20 + 10 * length (render_body c) <= f ->
   let e := S (S (S k)) + length (render_body c) in
   let pb := pexpected_body (Some (length Ls, S (S k))) (S (S (S k))) (S (length Ls)) (Some e) c in
-  ST stk (take_separators_on_last_line pass (CL_Level 0%Z) (finish_logical_line pass (RUN f (C_with_ctx cSt A_structures) s)))
+  ST stk (take_separators_on_last_line pass (CL_Level 0%Z) (finish_logical_line pass (RUN f (C_with_ctx (cStk bk) A_structures) s)))
      (S e) (Ls ++ [k; S k; S (S k)] :: map ll_toks pb) []
      (M ++ mkLM par (lvl (1 + plain_sum C)) LLT_Unknown :: map meta_of pb)
      (mkLM None (lvl (1 + plain_sum C)) LLT_Unknown) (length Ls) ((cBlk bk, false) :: C) lv a.
@@ -1583,9 +1647,9 @@ Proof.
   assert (Hkn2 : S (S k) < n) by (apply nth_error_Some; congruence).
   assert (Ml : length M = length Ls) by (destruct H as (_ & _ & Ml & _); exact Ml).
   destruct f as [|[|[|[|f]]]]; try lia.
-  rewrite (with_ctx_structures _ cSt s (ST_err stk _ _ _ _ _ _ _ _ _ _ H) eq_refl).
+  rewrite (with_ctx_structures _ (cStk bk) s (ST_err stk _ _ _ _ _ _ _ _ _ _ H) eq_refl).
   pose proof (finish_empty_ST stk _ _ _ _ _ _ _ _ _ H) as H0.
-  pose proof (push_ctx_ST stk cSt _ _ _ _ _ _ _ _ _ _ H0) as H1.
+  pose proof (push_ctx_ST stk (cStk bk) _ _ _ _ _ _ _ _ _ _ H0) as H1.
   rewrite (run_S _ C_structures _ (ST_err stk _ _ _ _ _ _ _ _ _ _ H1)).
   unfold arm_structures. rewrite (ST_cur_tt stk _ _ _ _ _ _ _ _ _ _ _ H1 Hk). cbn [tIf].
   rewrite (ending_St_SB stk bk _ _ _ _ _ _ _ _ _ _ _ H1 Hk). cbn [tIf is_term sarm_of].
@@ -1629,7 +1693,7 @@ Lemma iter_while stk par bk c f s k Ls M mc last C lv a t' :
   20 + 10 * length (render_body c) <= f ->
   let e := S (S (S k)) + length (render_body c) in
   let pb := pexpected_body (Some (length Ls, S (S k))) (S (S (S k))) (S (length Ls)) (Some e) c in
-  ST stk (take_separators_on_last_line pass (CL_Level 0%Z) (finish_logical_line pass (RUN f (C_with_ctx cSt A_structures) s)))
+  ST stk (take_separators_on_last_line pass (CL_Level 0%Z) (finish_logical_line pass (RUN f (C_with_ctx (cStk bk) A_structures) s)))
      (S e) (Ls ++ [k; S k; S (S k)] :: map ll_toks pb) []
      (M ++ mkLM par (lvl (1 + plain_sum C)) LLT_Unknown :: map meta_of pb)
      (mkLM None (lvl (1 + plain_sum C)) LLT_Unknown) (length Ls) ((cBlk bk, false) :: C) lv a.
@@ -1640,9 +1704,9 @@ Proof.
   assert (Hkn2 : S (S k) < n) by (apply nth_error_Some; congruence).
   assert (Ml : length M = length Ls) by (destruct H as (_ & _ & Ml & _); exact Ml).
   destruct f as [|[|[|[|f]]]]; try lia.
-  rewrite (with_ctx_structures _ cSt s (ST_err stk _ _ _ _ _ _ _ _ _ _ H) eq_refl).
+  rewrite (with_ctx_structures _ (cStk bk) s (ST_err stk _ _ _ _ _ _ _ _ _ _ H) eq_refl).
   pose proof (finish_empty_ST stk _ _ _ _ _ _ _ _ _ H) as H0.
-  pose proof (push_ctx_ST stk cSt _ _ _ _ _ _ _ _ _ _ H0) as H1.
+  pose proof (push_ctx_ST stk (cStk bk) _ _ _ _ _ _ _ _ _ _ H0) as H1.
   rewrite (run_S _ C_structures _ (ST_err stk _ _ _ _ _ _ _ _ _ _ H1)).
   unfold arm_structures. rewrite (ST_cur_tt stk _ _ _ _ _ _ _ _ _ _ _ H1 Hk). cbn [tWhile].
   rewrite (ending_St_SB stk bk _ _ _ _ _ _ _ _ _ _ _ H1 Hk). cbn [tWhile is_term sarm_of].
@@ -1685,7 +1749,7 @@ Lemma iter_ifelse stk par bk c1 c2 f s k Ls M mc last C lv a t' el :
   let e := S el + length (render_body c2) in
   let l1 := pexpected_body (Some (length Ls, S (S k))) (S (S (S k))) (S (length Ls)) None c1 in
   let l2 := pexpected_body (Some (length Ls, el)) (S el) (S (length Ls) + length l1) (Some e) c2 in
-  ST stk (take_separators_on_last_line pass (CL_Level 0%Z) (finish_logical_line pass (RUN f (C_with_ctx cSt A_structures) s)))
+  ST stk (take_separators_on_last_line pass (CL_Level 0%Z) (finish_logical_line pass (RUN f (C_with_ctx (cStk bk) A_structures) s)))
      (S e) (Ls ++ [k; S k; S (S k); el] :: map ll_toks l1 ++ map ll_toks l2) []
      (M ++ mkLM par (lvl (1 + plain_sum C)) LLT_Unknown :: map meta_of l1 ++ map meta_of l2)
      (mkLM None (lvl (1 + plain_sum C)) LLT_Unknown) (length Ls) ((cBlk bk, false) :: C) lv a.
@@ -1699,9 +1763,9 @@ Proof.
   { specialize (Hb1 (length (render_body c1)) tElse). rewrite nth_error_app2, Nat.sub_diag in Hb1 by lia. rewrite Hel. exact (Hb1 eq_refl). }
   assert (Heln : el < n) by (apply nth_error_Some; congruence).
   destruct f as [|[|[|[|f]]]]; try lia.
-  rewrite (with_ctx_structures _ cSt s (ST_err stk _ _ _ _ _ _ _ _ _ _ H) eq_refl).
+  rewrite (with_ctx_structures _ (cStk bk) s (ST_err stk _ _ _ _ _ _ _ _ _ _ H) eq_refl).
   pose proof (finish_empty_ST stk _ _ _ _ _ _ _ _ _ H) as H0.
-  pose proof (push_ctx_ST stk cSt _ _ _ _ _ _ _ _ _ _ H0) as H1.
+  pose proof (push_ctx_ST stk (cStk bk) _ _ _ _ _ _ _ _ _ _ H0) as H1.
   rewrite (run_S _ C_structures _ (ST_err stk _ _ _ _ _ _ _ _ _ _ H1)).
   unfold arm_structures. rewrite (ST_cur_tt stk _ _ _ _ _ _ _ _ _ _ _ H1 Hk). cbn [tIf].
   rewrite (ending_St_SB stk bk _ _ _ _ _ _ _ _ _ _ _ H1 Hk). cbn [tIf is_term sarm_of].
@@ -1773,12 +1837,12 @@ Proof.
     unfold need in Hf. cbn [render length] in *. destruct f as [|[|[|f]]]; try lia.
     pose proof (toks_at_0 _ _ _ Ht eq_refl) as Hk.
     assert (Hnt : tTerm bk <> tSemi) by (destruct bk; discriminate).
-    assert (Hct : cur_tt pass (push_ctx pass cSt (finish_logical_line pass s)) = Some (tTerm bk) -> True) by auto.
-    unfold stmt_list_call. rewrite (stmt_list_unfold _ _ _ _ _ (ST_err stk _ _ _ _ _ _ _ _ _ _ H)). cbv zeta.
-    change (ctx (CT_Statement SK_Normal) false P_semicolon (ParserGrammar.L 0)) with cSt.
-    rewrite (with_ctx_structures _ cSt s (ST_err stk _ _ _ _ _ _ _ _ _ _ H) eq_refl).
+    assert (Hct : cur_tt pass (push_ctx pass (cStk bk) (finish_logical_line pass s)) = Some (tTerm bk) -> True) by auto.
+    unfold slc. rewrite (stmt_list_unfold _ _ _ _ _ (ST_err stk _ _ _ _ _ _ _ _ _ _ H)). cbv zeta.
+    change (ctx (CT_Statement (sk_of bk)) false P_semicolon (ParserGrammar.L 0)) with (cStk bk).
+    rewrite (with_ctx_structures _ (cStk bk) s (ST_err stk _ _ _ _ _ _ _ _ _ _ H) eq_refl).
     pose proof (finish_empty_ST stk _ _ _ _ _ _ _ _ _ H) as H0.
-    pose proof (push_ctx_ST stk cSt _ _ _ _ _ _ _ _ _ _ H0) as H1.
+    pose proof (push_ctx_ST stk (cStk bk) _ _ _ _ _ _ _ _ _ _ H0) as H1.
     rewrite (run_S _ C_structures _ (ST_err stk _ _ _ _ _ _ _ _ _ _ H1)).
     unfold arm_structures. rewrite (ST_cur_tt stk _ _ _ _ _ _ _ _ _ _ _ H1 Hk).
     rewrite (ending_St_SB stk bk _ _ _ _ _ _ _ _ _ _ _ H1 Hk).
@@ -1788,7 +1852,7 @@ Proof.
     pose proof (pop_ctx_ST stk _ _ _ _ _ _ _ _ _ _ _ H2) as H3.
     pose proof (finish_empty_ST stk _ _ _ _ _ _ _ _ _ H3) as H4.
     rewrite (take_separators_noop stk _ _ _ _ _ _ _ _ _ _ _ (tTerm bk) H4 Hk) by exact Hnt.
-    assert (IE : is_ending pass (finish_logical_line pass (pop_ctx pass (update_statuses pass 2 (push_ctx pass cSt (finish_logical_line pass s))))) = true).
+    assert (IE : is_ending pass (finish_logical_line pass (pop_ctx pass (update_statuses pass 2 (push_ctx pass (cStk bk) (finish_logical_line pass s))))) = true).
     { unfold is_ending, ending_ctx. rewrite (ST_ctx stk _ _ _ _ _ _ _ _ _ _ H4). reflexivity. }
     rewrite IE. cbn [orb pexpected map]. rewrite !app_nil_r, Nat.add_0_r. eexists _, _, _. split; [|exact H4]. reflexivity.
   - (* Identifier ; *)
@@ -1799,8 +1863,8 @@ Proof.
     assert (Htr : toks_at (S (S k)) (render r ++ [tTerm bk])).
     { replace (S (S k)) with (k + 2) by lia. apply (toks_at_shift k 2 [tI; tSemi]); [exact Ht|reflexivity]. }
     destruct (head_tok bk r) as (t' & H0 & N1 & _). pose proof (toks_at_0 _ _ _ Htr H0) as Hk2.
-    unfold stmt_list_call. rewrite (stmt_list_unfold _ _ _ _ _ (ST_err stk _ _ _ _ _ _ _ _ _ _ H)). cbv zeta.
-    change (ctx (CT_Statement SK_Normal) false P_semicolon (ParserGrammar.L 0)) with cSt.
+    unfold slc. rewrite (stmt_list_unfold _ _ _ _ _ (ST_err stk _ _ _ _ _ _ _ _ _ _ H)). cbv zeta.
+    change (ctx (CT_Statement (sk_of bk)) false P_semicolon (ParserGrammar.L 0)) with (cStk bk).
     pose proof (iter_simple stk par bk f _ _ _ _ _ _ _ _ _ t' H HC Hk Hk1 Hk2 N1 ltac:(lia)) as H3.
     assert (Hn : need r <= f) by (unfold need; lia).
     pose proof (fun Hty => loop_tail stk par bk r C (IHr stk par bk C HC) f _ _ _ _ _ _ _ _ _ Hn eq_refl Hty H3 Htr) as LT.
@@ -1819,8 +1883,8 @@ Proof.
     assert (Htr : toks_at (S (S (S (S k)))) (render r ++ [tTerm bk])).
     { replace (S (S (S (S k)))) with (k + 4) by lia. apply (toks_at_shift k 4 [tI; tAssign; tI; tSemi]); [exact Ht|reflexivity]. }
     destruct (head_tok bk r) as (t' & H0 & N1 & _). pose proof (toks_at_0 _ _ _ Htr H0) as Hk4.
-    unfold stmt_list_call. rewrite (stmt_list_unfold _ _ _ _ _ (ST_err stk _ _ _ _ _ _ _ _ _ _ H)). cbv zeta.
-    change (ctx (CT_Statement SK_Normal) false P_semicolon (ParserGrammar.L 0)) with cSt.
+    unfold slc. rewrite (stmt_list_unfold _ _ _ _ _ (ST_err stk _ _ _ _ _ _ _ _ _ _ H)). cbv zeta.
+    change (ctx (CT_Statement (sk_of bk)) false P_semicolon (ParserGrammar.L 0)) with (cStk bk).
     pose proof (iter_assign stk par bk f _ _ _ _ _ _ _ _ _ t' H HC Hk Hk1 Hk2 Hk3 Hk4 N1 ltac:(lia)) as H3.
     assert (Hn : need r <= f) by (unfold need; lia).
     pose proof (fun Hty => loop_tail stk par bk r C (IHr stk par bk C HC) f _ _ _ _ _ _ _ _ _ Hn eq_refl Hty H3 Htr) as LT.
@@ -1848,9 +1912,9 @@ Proof.
     assert (Htr : toks_at (S (S e)) (render r ++ [tTerm bk])).
     { replace (S (S e)) with (S e + 1) by lia. apply (toks_at_shift (S e) 1 [tSemi]); [exact Hts|reflexivity]. }
     destruct (head_tok bk r) as (t' & H0 & N1 & _). pose proof (toks_at_0 _ _ _ Htr H0) as Hse1.
-    unfold stmt_list_call. rewrite (stmt_list_unfold _ _ _ _ _ (ST_err stk _ _ _ _ _ _ _ _ _ _ H)). cbv zeta.
-    change (ctx (CT_Statement SK_Normal) false P_semicolon (ParserGrammar.L 0)) with cSt.
-    assert (HC' : first_parent ((cSt, false) :: (cBlk bk, false) :: C) = par) by (rewrite first_parent_St_blk; exact HC).
+    unfold slc. rewrite (stmt_list_unfold _ _ _ _ _ (ST_err stk _ _ _ _ _ _ _ _ _ _ H)). cbv zeta.
+    change (ctx (CT_Statement (sk_of bk)) false P_semicolon (ParserGrammar.L 0)) with (cStk bk).
+    assert (HC' : first_parent (((cStk bk), false) :: (cBlk bk, false) :: C) = par) by (rewrite first_parent_St_blk; exact HC).
     destruct (iter_block stk par bk b f _ _ _ _ _ _ _ _ _ t' (IHb stk par KBegin _ HC') H HC Hk Htb Hse Hse1 N1 ltac:(unfold need; lia)) as (mc3 & Ty3 & H3).
     fold e in H3.
     destruct (loop_tail stk par bk r C (IHr stk par bk C HC) f _ _ _ _ _ _ _ _ _ ltac:(unfold need; lia) eq_refl Ty3 H3 Htr) as (mc' & last' & fl & Ty & H4).
@@ -1880,9 +1944,9 @@ Proof.
     assert (Htr : toks_at (S (S (S e))) (render r ++ [tTerm bk])).
     { replace (S (S (S e))) with (S e + 2) by lia. apply (toks_at_shift (S e) 2 [tI; tSemi]); [exact Hts|reflexivity]. }
     destruct (head_tok bk r) as (t' & H0 & N1 & _). pose proof (toks_at_0 _ _ _ Htr H0) as Hse1.
-    unfold stmt_list_call. rewrite (stmt_list_unfold _ _ _ _ _ (ST_err stk _ _ _ _ _ _ _ _ _ _ H)). cbv zeta.
-    change (ctx (CT_Statement SK_Normal) false P_semicolon (ParserGrammar.L 0)) with cSt.
-    assert (HC' : first_parent ((cSt, false) :: (cBlk bk, false) :: C) = par) by (rewrite first_parent_St_blk; exact HC).
+    unfold slc. rewrite (stmt_list_unfold _ _ _ _ _ (ST_err stk _ _ _ _ _ _ _ _ _ _ H)). cbv zeta.
+    change (ctx (CT_Statement (sk_of bk)) false P_semicolon (ParserGrammar.L 0)) with (cStk bk).
+    assert (HC' : first_parent (((cStk bk), false) :: (cBlk bk, false) :: C) = par) by (rewrite first_parent_St_blk; exact HC).
     destruct (iter_repeat stk par bk b f _ _ _ _ _ _ _ _ _ t' (IHb stk par KRepeat _ HC') H HC Hk Htb Hi Hse Hse1 N1 ltac:(unfold need; lia)) as (mc3 & last3 & Ty3 & H3).
     fold e in H3.
     destruct (loop_tail stk par bk r C (IHr stk par bk C HC) f _ _ _ _ _ _ _ _ _ ltac:(unfold need; lia) eq_refl Ty3 H3 Htr) as (mc' & last' & fl & Ty & H4).
@@ -1917,9 +1981,9 @@ Proof.
     assert (Htr : toks_at (S (S e)) (render r ++ [tTerm bk])).
     { replace (S (S e)) with (S e + 1) by lia. apply (toks_at_shift (S e) 1 [tSemi]); [exact Hts|reflexivity]. }
     destruct (head_tok bk r) as (t' & H0 & N1 & _). pose proof (toks_at_0 _ _ _ Htr H0) as Hse1.
-    unfold stmt_list_call. rewrite (stmt_list_unfold _ _ _ _ _ (ST_err stk _ _ _ _ _ _ _ _ _ _ H)). cbv zeta.
-    change (ctx (CT_Statement SK_Normal) false P_semicolon (ParserGrammar.L 0)) with cSt.
-    assert (HC' : first_parent ((cSt, false) :: (cBlk bk, false) :: C) = par) by (rewrite first_parent_St_blk; exact HC).
+    unfold slc. rewrite (stmt_list_unfold _ _ _ _ _ (ST_err stk _ _ _ _ _ _ _ _ _ _ H)). cbv zeta.
+    change (ctx (CT_Statement (sk_of bk)) false P_semicolon (ParserGrammar.L 0)) with (cStk bk).
+    assert (HC' : first_parent (((cStk bk), false) :: (cBlk bk, false) :: C) = par) by (rewrite first_parent_St_blk; exact HC).
     destruct (iter_try stk par bk b c f _ _ _ _ _ _ _ _ _ t' (IHb stk par KTry _ HC') (IHc stk par KFinally _ HC') H HC Hk Htb Htc Hse Hse1 N1 ltac:(unfold need; lia)) as (mc3 & last3 & Ty3 & H3).
     fold m in H3. fold e in H3.
     destruct (loop_tail stk par bk r C (IHr stk par bk C HC) f _ _ _ _ _ _ _ _ _ ltac:(unfold need; lia) eq_refl Ty3 H3 Htr) as (mc' & last' & fl & Ty & H4).
@@ -1927,6 +1991,43 @@ Proof.
     cbn [pexpected]. cbv zeta. replace (k + 1) with (S k) by lia. fold m. replace (m + 1) with (S m) by lia. fold e.
     replace (e + 1) with (S e) by lia. replace (e + 2) with (S (S e)) by lia.
     replace (k + S (length (render b ++ tFinally :: render c ++ tEnd :: tSemi :: render r))) with (S (S e) + length (render r))
+      by (rewrite !app_length; cbn [length]; rewrite app_length; cbn [length]; unfold e, m; lia).
+    replace (length Ls + 1) with (S (length Ls)) by lia. fix_li r H4.
+    eapply (ST_lists stk); [exact H4| |]; cbn [map]; repeat (rewrite map_app; cbn [map]); cbn [map app ll_toks]; repeat (progress (cbn [app]; rewrite <- ?app_assoc)); reflexivity.
+  - (* try b except c end ; *)
+    intros b IHb c IHc r IHr stk par bk C HC f s k Ls M mc last lv a li Hf Hli H Ht; subst li; unfold Post.
+    unfold need in Hf. cbn [render length] in *. rewrite !app_length in Hf. cbn [length] in Hf. rewrite app_length in Hf. cbn [length] in Hf.
+    destruct f as [|f]; [lia|].
+    assert (Eq : (tTry :: render b ++ tExcept :: render c ++ tEnd :: tSemi :: render r) ++ [tTerm bk]
+                 = [tTry] ++ (render b ++ [tExcept]) ++ (render c ++ [tEnd]) ++ [tSemi] ++ (render r ++ [tTerm bk])).
+    { cbn [app]. rewrite <- !app_assoc. cbn [app]. rewrite <- !app_assoc. reflexivity. }
+    rewrite Eq in Ht.
+    pose proof (Ht 0 _ eq_refl) as Hk. rewrite Nat.add_0_r in Hk.
+    assert (Htb : toks_at (S k) (render b ++ [tExcept])).
+    { replace (S k) with (k + 1) by lia. eapply toks_at_prefix. apply (toks_at_shift k 1 [tTry]); [exact Ht|reflexivity]. }
+    set (m := S k + length (render b)).
+    assert (Ht2 : toks_at (S m) ((render c ++ [tEnd]) ++ [tSemi] ++ render r ++ [tTerm bk])).
+    { replace (S m) with (k + 1 + length (render b ++ [tExcept])) by (rewrite app_length; cbn [length]; unfold m; lia).
+      apply (toks_at_shift (k + 1) _ (render b ++ [tExcept])); [|reflexivity]. apply (toks_at_shift k 1 [tTry]); [exact Ht|reflexivity]. }
+    assert (Htc : toks_at (S m) (render c ++ [tEnd])) by (eapply toks_at_prefix; exact Ht2).
+    set (e := S m + length (render c)).
+    assert (Hts : toks_at (S e) ([tSemi] ++ render r ++ [tTerm bk])).
+    { replace (S e) with (S m + length (render c ++ [tEnd])) by (rewrite app_length; cbn [length]; unfold e; lia).
+      apply (toks_at_shift (S m) _ (render c ++ [tEnd])); [exact Ht2|reflexivity]. }
+    pose proof (toks_at_0 _ _ _ Hts eq_refl) as Hse.
+    assert (Htr : toks_at (S (S e)) (render r ++ [tTerm bk])).
+    { replace (S (S e)) with (S e + 1) by lia. apply (toks_at_shift (S e) 1 [tSemi]); [exact Hts|reflexivity]. }
+    destruct (head_tok bk r) as (t' & H0 & N1 & _). pose proof (toks_at_0 _ _ _ Htr H0) as Hse1.
+    unfold slc. rewrite (stmt_list_unfold _ _ _ _ _ (ST_err stk _ _ _ _ _ _ _ _ _ _ H)). cbv zeta.
+    change (ctx (CT_Statement (sk_of bk)) false P_semicolon (ParserGrammar.L 0)) with (cStk bk).
+    assert (HC' : first_parent (((cStk bk), false) :: (cBlk bk, false) :: C) = par) by (rewrite first_parent_St_blk; exact HC).
+    destruct (iter_tryexcept stk par bk b c f _ _ _ _ _ _ _ _ _ t' (IHb stk par KTryE _ HC') (IHc stk par KExcept _ HC') H HC Hk Htb Htc Hse Hse1 N1 ltac:(unfold need; lia)) as (mc3 & last3 & Ty3 & H3).
+    fold m in H3. fold e in H3.
+    destruct (loop_tail stk par bk r C (IHr stk par bk C HC) f _ _ _ _ _ _ _ _ _ ltac:(unfold need; lia) eq_refl Ty3 H3 Htr) as (mc' & last' & fl & Ty & H4).
+    exists mc', last', fl. split; [exact Ty|].
+    cbn [pexpected]. cbv zeta. replace (k + 1) with (S k) by lia. fold m. replace (m + 1) with (S m) by lia. fold e.
+    replace (e + 1) with (S e) by lia. replace (e + 2) with (S (S e)) by lia.
+    replace (k + S (length (render b ++ tExcept :: render c ++ tEnd :: tSemi :: render r))) with (S (S e) + length (render r))
       by (rewrite !app_length; cbn [length]; rewrite app_length; cbn [length]; unfold e, m; lia).
     replace (length Ls + 1) with (S (length Ls)) by lia. fix_li r H4.
     eapply (ST_lists stk); [exact H4| |]; cbn [map]; repeat (rewrite map_app; cbn [map]); cbn [map app ll_toks]; repeat (progress (cbn [app]; rewrite <- ?app_assoc)); reflexivity.
@@ -1949,8 +2050,8 @@ Proof.
       apply (toks_at_shift _ _ (render_body c ++ [tSemi])); [exact Ht3|reflexivity]. }
     destruct (head_tok bk r) as (t' & H0 & N1 & _). pose proof (toks_at_0 _ _ _ Htr H0) as Hse1.
     pose proof (head_tok_ne_eof bk r t' H0) as NE.
-    unfold stmt_list_call. rewrite (stmt_list_unfold _ _ _ _ _ (ST_err stk _ _ _ _ _ _ _ _ _ _ H)). cbv zeta.
-    change (ctx (CT_Statement SK_Normal) false P_semicolon (ParserGrammar.L 0)) with cSt.
+    unfold slc. rewrite (stmt_list_unfold _ _ _ _ _ (ST_err stk _ _ _ _ _ _ _ _ _ _ H)). cbv zeta.
+    change (ctx (CT_Statement (sk_of bk)) false P_semicolon (ParserGrammar.L 0)) with (cStk bk).
     pose proof (iter_if stk par bk c f _ _ _ _ _ _ _ _ _ t' (fun b Hb => IHc b Hb _ _ KBegin _ eq_refl) H HC Hk Hk1 Hk2 Htb Hse1 N1 NE ltac:(lia)) as H3.
     cbv zeta in H3. fold e in H3.
     pose proof (fun Hty => loop_tail stk par bk r C (IHr stk par bk C HC) f _ _ _ _ _ _ _ _ _ ltac:(unfold need; lia) eq_refl Hty H3 Htr) as LT.
@@ -1987,8 +2088,8 @@ Proof.
       apply (toks_at_shift _ _ (render_body c2 ++ [tSemi])); [exact Ht4|reflexivity]. }
     destruct (head_tok bk r) as (t' & H0 & N1 & _). pose proof (toks_at_0 _ _ _ Htr H0) as Hse1.
     pose proof (head_tok_ne_eof bk r t' H0) as NE.
-    unfold stmt_list_call. rewrite (stmt_list_unfold _ _ _ _ _ (ST_err stk _ _ _ _ _ _ _ _ _ _ H)). cbv zeta.
-    change (ctx (CT_Statement SK_Normal) false P_semicolon (ParserGrammar.L 0)) with cSt.
+    unfold slc. rewrite (stmt_list_unfold _ _ _ _ _ (ST_err stk _ _ _ _ _ _ _ _ _ _ H)). cbv zeta.
+    change (ctx (CT_Statement (sk_of bk)) false P_semicolon (ParserGrammar.L 0)) with (cStk bk).
     pose proof (iter_ifelse stk par bk c1 c2 f _ _ _ _ _ _ _ _ _ t' el eq_refl (fun b Hb => IHc1 b Hb _ _ KBegin _ eq_refl)
                   (fun b Hb => IHc2 b Hb _ _ KBegin _ eq_refl) H HC Hk Hk1 Hk2 Htb1 Htb2 Hse1 N1 NE ltac:(lia)) as H3.
     cbv zeta in H3. fold e in H3.
@@ -2020,8 +2121,8 @@ Proof.
       apply (toks_at_shift _ _ (render_body c ++ [tSemi])); [exact Ht3|reflexivity]. }
     destruct (head_tok bk r) as (t' & H0 & N1 & _). pose proof (toks_at_0 _ _ _ Htr H0) as Hse1.
     pose proof (head_tok_ne_eof bk r t' H0) as NE.
-    unfold stmt_list_call. rewrite (stmt_list_unfold _ _ _ _ _ (ST_err stk _ _ _ _ _ _ _ _ _ _ H)). cbv zeta.
-    change (ctx (CT_Statement SK_Normal) false P_semicolon (ParserGrammar.L 0)) with cSt.
+    unfold slc. rewrite (stmt_list_unfold _ _ _ _ _ (ST_err stk _ _ _ _ _ _ _ _ _ _ H)). cbv zeta.
+    change (ctx (CT_Statement (sk_of bk)) false P_semicolon (ParserGrammar.L 0)) with (cStk bk).
     pose proof (iter_while stk par bk c f _ _ _ _ _ _ _ _ _ t' (fun b Hb => IHc b Hb _ _ KBegin _ eq_refl) H HC Hk Hk1 Hk2 Htb Hse1 N1 NE ltac:(lia)) as H3.
     cbv zeta in H3. fold e in H3.
     pose proof (fun Hty => loop_tail stk par bk r C (IHr stk par bk C HC) f _ _ _ _ _ _ _ _ _ ltac:(unfold need; lia) eq_refl Hty H3 Htr) as LT.
@@ -2078,11 +2179,11 @@ Proof.
   pose proof (push_ctx_ST (@nil nat) (cBlk KBegin) _ _ _ _ _ _ _ _ _ _ H3) as H4.
   pose proof (fun Hli => stmts_run ss [] None KBegin [(cTop, false)] eq_refl (S f) _ _ _ _ _ _ _ _ 1 ltac:(lia) Hli H4 Htb) as SRn.
   destruct (SRn eq_refl) as (mcb & lastb & flb & Tyb & H5).
-  change (C_stmt_list (CT_Statement SK_Normal) false P_semicolon) with stmt_list_call.
+  change (C_stmt_list (CT_Statement SK_Normal) false P_semicolon) with (slc KBegin).
   cbn [plain_sum cTop ctx c_level ParserGrammar.L] in H5. change (1 + (0 + 0))%Z with 1%Z in H5.
   pose proof (pop_ctx_ST (@nil nat) _ _ _ _ _ _ _ _ _ _ _ H5) as H6.
   change (1 + length (render ss)) with e in H6.
-  set (sB := pop_ctx pass (RUN (S f) stmt_list_call (push_ctx pass (cBlk KBegin) (finish_logical_line pass (next_token pass (push_ctx pass cTop (finish_logical_line pass s0))))))) in *.
+  set (sB := pop_ctx pass (RUN (S f) (slc KBegin) (push_ctx pass (cBlk KBegin) (finish_logical_line pass (next_token pass (push_ctx pass cTop (finish_logical_line pass s0))))))) in *.
   assert (He : nth_error T e = Some tEnd).
   { specialize (Htb (length (render ss)) tEnd). rewrite nth_error_app2, Nat.sub_diag in Htb by lia. exact (Htb eq_refl). }
   assert (Hen : e < n) by (unfold e; lia). assert (Hen1 : S e < n) by (unfold e; lia). assert (Hen2 : S (S e) < n) by (unfold e; lia).
@@ -2327,6 +2428,11 @@ Proof.
     apply seg_ok_cons; [intros _; do 2 apply par_in_app; exact Hp|].
     apply seg_ok_app; [apply IHc; [len_tac|do 3 apply par_in_app; exact Hp]|].
     apply seg_ok_cons; [intros _; do 4 apply par_in_app; exact Hp|]. apply IHr; [len_tac|do 5 apply par_in_app; exact Hp].
+  - intros b IHb c IHc r IHr par d k li pre Hl Hp. apply seg_ok_cons; [intros _; exact Hp|].
+    apply seg_ok_app; [apply IHb; [len_tac|apply par_in_app, Hp]|].
+    apply seg_ok_cons; [intros _; do 2 apply par_in_app; exact Hp|].
+    apply seg_ok_app; [apply IHc; [len_tac|do 3 apply par_in_app; exact Hp]|].
+    apply seg_ok_cons; [intros _; do 4 apply par_in_app; exact Hp|]. apply IHr; [len_tac|do 5 apply par_in_app; exact Hp].
   - intros c IHc r IHr par d k li pre Hl Hp. apply seg_ok_cons; [intros _; exact Hp|].
     apply seg_ok_app.
     + apply IHc; [len_tac|]. eexists. split; [rewrite nth_error_app2, Hl, Nat.sub_diag by lia; reflexivity|].
@@ -2499,7 +2605,7 @@ Qed.
 (* without `if`/`while` there are no child lines: no line has a parent *)
 Lemma pexpected_child_free : forall ss d k li, child_free ss = true -> Forall (fun l => ll_parent l = None) (pexpected None d k li ss).
 Proof.
-  induction ss as [|r IH|r IH|b IHb r IHr|b IHb r IHr|b IHb c IHc r IHr| | |]; intros d k li Hc; cbn [pexpected child_free] in *; cbv zeta;
+  induction ss as [|r IH|r IH|b IHb r IHr|b IHb r IHr|b IHb c IHc r IHr|b IHb c IHc r IHr| | |]; intros d k li Hc; cbn [pexpected child_free] in *; cbv zeta;
     try discriminate.
   - constructor.
   - constructor; [reflexivity|apply IH, Hc].
@@ -2508,6 +2614,9 @@ Proof.
     constructor; [reflexivity|]. apply Forall_app. split; [apply IHb, H1|]. constructor; [reflexivity|apply IHr, H2].
   - apply andb_prop in Hc. destruct Hc as [H1 H2].
     constructor; [reflexivity|]. apply Forall_app. split; [apply IHb, H1|]. constructor; [reflexivity|apply IHr, H2].
+  - apply andb_prop in Hc. destruct Hc as [H1 H3]. apply andb_prop in H1. destruct H1 as [H1 H2].
+    constructor; [reflexivity|]. apply Forall_app. split; [apply IHb, H1|]. constructor; [reflexivity|].
+    apply Forall_app. split; [apply IHc, H2|]. constructor; [reflexivity|apply IHr, H3].
   - apply andb_prop in Hc. destruct Hc as [H1 H3]. apply andb_prop in H1. destruct H1 as [H1 H2].
     constructor; [reflexivity|]. apply Forall_app. split; [apply IHb, H1|]. constructor; [reflexivity|].
     apply Forall_app. split; [apply IHc, H2|]. constructor; [reflexivity|apply IHr, H3].
@@ -2534,7 +2643,8 @@ Proof. vm_compute. reflexivity. Qed.
 (* non-vacuity: a program with three nesting levels, all statement forms *)
 Example fragment_example :
   let ss := SSimple (SRepeat (SAssign (STry SNil (SSimple SNil) SNil))
-              (STry (SBlock SNil SNil) (SIf (TBlock (SSimple SNil)) SNil) (SBlock (SAssign (SWhile TSimple SNil)) (SIfElse TAssign TSimple SNil)))) in
+              (STry (SBlock SNil SNil) (SIf (TBlock (SSimple SNil)) SNil)
+                 (SBlock (SAssign (SWhile TSimple SNil)) (SIfElse TAssign TSimple (STryExcept (SSimple SNil) (SAssign SNil) SNil))))) in
   r_lines (parse_file_model (render_prog ss) []) = expected_prog ss
   /\ child_free ss = false /\ child_free (SSimple (SRepeat SNil SNil)) = true
   /\ map (fun l => (ll_level l, ll_toks l)) (firstn 9 (expected_prog ss))
